@@ -2,7 +2,8 @@
 contextualisers, including the with-items rows over an item list of *unbounded* symbolic length."""
 import z3
 
-from orquesta import events, exceptions as exc, machines, statuses as st
+from orquesta import events, exceptions as exc, machines
+from contracts import specconst as st
 from orquesta.utils import jsonify as json_util
 
 from pyvc import seqlib, sym as S
